@@ -7,7 +7,7 @@
     NOT modelled (tied by the correspondence run only): the per-node visitors that apply the
     filters to every token of the tree, the parser, and the re-lexing of the generated text
     into the same code tokens — hence [C18_code_tokens_kept_partial]. *)
-From DL Require Import Lib.Bytes Model.CommentText Proof.CommentTextFacts.
+From DL Require Import Lib.Bytes Model.CommentText Proof.CommentTextFacts Model.TokenGen Proof.TokenGenFacts.
 Open Scope N_scope.
 
 (** The appended comment is read by the reference lexer as exactly one comment of exactly the
@@ -169,6 +169,55 @@ Check C18_append_keeps_code_partial : forall (A : Type) comment (t : ttoken A) (
    comments_of (append_start comment t :: l) = comment :: comments_of (t :: l)) /\
   (code_tokens (l ++ [append_end comment t]) = code_tokens (l ++ [t]) /\
    comments_of (l ++ [append_end comment t]) = comments_of (l ++ [t]) ++ [comment]).
+
+(** Generator level ([Model/TokenGen.v]): after a comment that the generator classifies as a line
+    comment, the next non-empty token or symbol starts on a new line — this discharges the
+    [line_follow] hypothesis of [C18_comment_closed] for such comments ... *)
+Theorem C18_line_comment_then_token : forall st c x t l sc, is_single_line_comment c = true ->
+  exists rest, g_out (write_token (write_trivia st KComment c) (x :: t) l sc) = g_out st ++ c ++ 10 :: rest.
+Proof. exact line_comment_then_token. Qed.
+Print Assumptions C18_line_comment_then_token.
+Check C18_line_comment_then_token : forall st c x t l sc, is_single_line_comment c = true ->
+  exists rest, g_out (write_token (write_trivia st KComment c) (x :: t) l sc) = g_out st ++ c ++ 10 :: rest.
+
+Theorem C18_line_comment_then_symbol : forall st c x t sc, is_single_line_comment c = true ->
+  exists rest, g_out (write_symbol (write_trivia st KComment c) (x :: t) sc) = g_out st ++ c ++ 10 :: rest.
+Proof. exact line_comment_then_symbol. Qed.
+Print Assumptions C18_line_comment_then_symbol.
+Check C18_line_comment_then_symbol : forall st c x t sc, is_single_line_comment c = true ->
+  exists rest, g_out (write_symbol (write_trivia st KComment c) (x :: t) sc) = g_out st ++ c ++ 10 :: rest.
+
+(** ... and three ways in which the generated text still lets a comment swallow code (recorded
+    defects): a comment misclassified as long ("--[a["), a raw push after a line comment, and a
+    "-" token glued to a following comment once white space is removed. *)
+Theorem C18_generator_swallows_refuted :
+  (let c := of_string "--[a[" in
+   lex_comment (c ++ [59]) = Some (List.length (c ++ [59])) /\
+   g_out (run g_init [RToken [49] (Some 1%nat) true; RTrivia KComment c; RToken [59] (Some 1%nat) true])
+     = [49] ++ c ++ [59]) /\
+  (let c := of_string "--c" in
+   is_single_line_comment c = true /\
+   g_out (run g_init [RToken [40] (Some 1%nat) true; RTrivia KComment c; RRaw [46; 46; 46]])
+     = [40] ++ c ++ [46; 46; 46]) /\
+  (let c := of_string "-- c" in
+   g_out (run g_init [RToken [97] (Some 1%nat) true; RToken [45] (Some 1%nat) true; RTrivia KComment c])
+     = of_string "a--- c" /\
+   lex_comment (of_string "--- c") = Some 5%nat).
+Proof. exact (conj misclassified_comment_swallows_token (conj raw_push_swallowed minus_glued_to_comment)). Qed.
+Print Assumptions C18_generator_swallows_refuted.
+Check C18_generator_swallows_refuted :
+  (let c := of_string "--[a[" in
+   lex_comment (c ++ [59]) = Some (List.length (c ++ [59])) /\
+   g_out (run g_init [RToken [49] (Some 1%nat) true; RTrivia KComment c; RToken [59] (Some 1%nat) true])
+     = [49] ++ c ++ [59]) /\
+  (let c := of_string "--c" in
+   is_single_line_comment c = true /\
+   g_out (run g_init [RToken [40] (Some 1%nat) true; RTrivia KComment c; RRaw [46; 46; 46]])
+     = [40] ++ c ++ [46; 46; 46]) /\
+  (let c := of_string "-- c" in
+   g_out (run g_init [RToken [97] (Some 1%nat) true; RToken [45] (Some 1%nat) true; RTrivia KComment c])
+     = of_string "a--- c" /\
+   lex_comment (of_string "--- c") = Some 5%nat).
 
 (** non-vacuity: the hypotheses of [C18_comment_closed] are met by non-trivial texts *)
 Example C18_example_multiline :
